@@ -178,6 +178,26 @@ func c19HttpTable(r *Run) {
 				}
 				items, outs = append(items, "T"), append(outs, "ok")
 				idledOut = len(objs)
+			case op == 5 && k%2 == 1:
+				// a Write that its caller has given up on (finished context): an error, and the connection —
+				// which other calls are using — is as alive as before (model label writeGaveUp)
+				j := rng.Intn(len(objs))
+				item := fmt.Sprintf("G%d", j)
+				r.Progress("http.table", strings.Join(append(items, item), " "))
+				gone, cancelGone := context.WithCancel(context.Background())
+				cancelGone()
+				var err error
+				if !within(hangTimeout, func() {
+					err = objs[j].Write(gone, &Rpc{Id: 1, Header: &goatorepo.RequestHeader{Method: "/svc/m", Source: "me", Destination: "x"}})
+				}) {
+					r.Violate("http.table.hang", "ops", "a Write with a finished context did not return", strings.Join(append(items, item), " "), goroutineDump(), nil)
+					ok = false
+				}
+				out := "err"
+				if err == nil {
+					out = "nil"
+				}
+				items, outs = append(items, item), append(outs, out)
 			case op == 5:
 				// a Write whose envelope cannot be encoded (invalid UTF-8 in a string field): an error, nothing else
 				j := rng.Intn(len(objs))
